@@ -30,7 +30,7 @@ type AddContactGroupsAction struct {
 	baseAction
 	universalAction
 
-	Groups []*assets.GroupReference `json:"groups" validate:"required,dive"`
+	Groups []*assets.GroupReference `json:"groups" validate:"required,dive,required"`
 }
 
 // NewAddContactGroups creates a new add to groups action
